@@ -125,6 +125,7 @@ func New(config ...Config) fiber.Handler {
 
 		// Get entry from pool
 		e := manager.get(key)
+		verifYield("cache.afterGet")
 
 		// Lock entry
 		mux.Lock()
